@@ -47,7 +47,14 @@ def build_sn(sn: Dict[str, bool]) -> List[str]:
                                                                                    "<SHORT-NAME>n</SHORT-NAME><LONG-NAME>G.dop</LONG-NAME>", 1))
         g.requests.append(og.request("RQ.G", "RQG", [og.p_const8("sid", 0x31, bytepos=0), og.p_value("p", None, dop_snref="n", bytepos=1)]))
         g.diag_comms.append(og.service("DC.G", "svcG", "RQ.G"))
+    # a second functional group: the inheritance graph branches at A
+    g2 = og.Layer("FUNCTIONAL-GROUP", "L.G2", "G2")
+    g2.dops.append(og.dop("G2.m", "m", og.dct_standard("A_UINT32", 32)).replace("<SHORT-NAME>m</SHORT-NAME>",
+                                                                                "<SHORT-NAME>m</SHORT-NAME><LONG-NAME>G2.m</LONG-NAME>", 1))
+    g2.requests.append(og.request("RQ.G2", "RQG2", [og.p_const8("sid", 0x32, bytepos=0), og.p_value("p", None, dop_snref="m", bytepos=1)]))
+    g2.diag_comms.append(og.service("DC.G2", "svcG2", "RQ.G2"))
     a.parent_refs.append(og.parent_ref("L.G", "FUNCTIONAL-GROUP", "C1"))
+    a.parent_refs.append(og.parent_ref("L.G2", "FUNCTIONAL-GROUP", "C1"))
     if sn["adop"]:
         a.dops.append(og.dop("A.dop", "n", og.dct_standard("A_UINT32", 8)).replace("<SHORT-NAME>n</SHORT-NAME>",
                                                                                   "<SHORT-NAME>n</SHORT-NAME><LONG-NAME>A.dop</LONG-NAME>", 1))
@@ -56,6 +63,8 @@ def build_sn(sn: Dict[str, bool]) -> List[str]:
         a.structures.append(og.structure("A.struct", "n", [og.p_value("x", "A.u8")]).replace(
             "<SHORT-NAME>n</SHORT-NAME>", "<SHORT-NAME>n</SHORT-NAME><LONG-NAME>A.struct</LONG-NAME>", 1))
     if sn["vdop"]:
+        v.dops.append(og.dop("V.m", "m", og.dct_standard("A_UINT32", 16)).replace("<SHORT-NAME>m</SHORT-NAME>",
+                                                                                 "<SHORT-NAME>m</SHORT-NAME><LONG-NAME>V.m</LONG-NAME>", 1))
         v.dops.append(og.dop("V.dop", "n", og.dct_standard("A_UINT32", 16)).replace("<SHORT-NAME>n</SHORT-NAME>",
                                                                                    "<SHORT-NAME>n</SHORT-NAME><LONG-NAME>V.dop</LONG-NAME>", 1))
     a.requests.append(og.request("RQ.A", "RQA", [og.p_const8("sid", 0x22, bytepos=0), og.p_value("p", None, dop_snref="n", bytepos=1)]))
@@ -63,7 +72,7 @@ def build_sn(sn: Dict[str, bool]) -> List[str]:
     v.requests.append(og.request("RQ.V", "RQV", [og.p_const8("sid", 0x2E, bytepos=0), og.p_value("p", None, dop_snref="n", bytepos=1)]))
     v.diag_comms.append(og.service("DC.V", "svcV", "RQ.V"))
     v.parent_refs.append(og.parent_ref("L.A", "BASE-VARIANT", "C1", ni_dops=["n"] if sn["ni"] else []))
-    return [og.container("C1", "C1", [g, a, v])]
+    return [og.container("C1", "C1", [g, g2, a, v])]
 
 
 def _init(repo: str) -> None:
@@ -138,6 +147,9 @@ def process(recs: List[Dict[str, Any]]) -> Dict[str, Any]:
             pa = a.diag_layer_raw.requests.RQA.parameters.p
             pv = v.diag_layer_raw.requests.RQV.parameters.p
             pg = db.diag_layers.G.diag_layer_raw.requests.RQG.parameters.p if sn["gdop"] else None
+            pg2 = db.diag_layers.G2.diag_layer_raw.requests.RQG2.parameters.p
+            if pg2.dop.long_name != rec["g2"]:
+                fail("snref_bound_to_wrong_object", {**base, "where": "G2", "expected": rec["g2"], "bound_to": pg2.dop.long_name})
             if pg is not None and pg.dop.long_name != rec["g"]:
                 fail("snref_bound_to_wrong_object", {**base, "where": "G", "expected": rec["g"], "bound_to": pg.dop.long_name})
             if pa.dop.long_name != rec["a"]:
@@ -152,6 +164,8 @@ def process(recs: List[Dict[str, Any]]) -> Dict[str, Any]:
                     fail("retarget_did_not_rebind", {**base, "expected": rec["v"], "bound_to": pa.dop.long_name})
                 if pg is not None and pg.dop.long_name != rec["v"]:
                     fail("retarget_did_not_rebind", {**base, "where": "grandparent", "expected": rec["v"], "bound_to": pg.dop.long_name})
+                if pg2.dop.long_name != rec["g2v"]:
+                    fail("retarget_did_not_rebind", {**base, "where": "second parent", "expected": rec["g2v"], "bound_to": pg2.dop.long_name})
                 retarget_snrefs(db, a)
                 if pa.dop.long_name != rec["a"]:
                     fail("retarget_back_did_not_rebind", {**base, "expected": rec["a"], "bound_to": pa.dop.long_name})
